@@ -353,6 +353,7 @@ func c34RunCase(r *vkit.Run, cs *c34Case) (res c34Result) {
 		gotHdr: map[uint32]bool{}, ackedIWS: 65535, pendIWS: int64(cs.IWS), ackedMFS: 16384, pendMFS: cs.MFS, setPend: true,
 		srvRST: map[uint32]http2.ErrCode{}}
 	tc.cli.OnEvent = c.onEvent
+	tc.cli.Timeout = 5 * time.Second // the main loop turns a quiet period into a quiescence check, see below
 	states := make([]*c34HState, len(cs.Streams))
 	defer func() {
 		tc.cli.Close()
@@ -570,31 +571,39 @@ func c34RunCase(r *vkit.Run, cs *c34Case) (res c34Result) {
 		err := tc.cli.Wait(func(evs []h2cli.Event) bool { return len(evs) > n0 })
 		seen = tc.cli.NumEvents()
 		if err == h2cli.ErrTimeout {
-			// nothing arrived for the whole safety timeout: either late-opening streams are
-			// waiting for DATA events that cannot come any more, or the server is stuck
-			stuck := true
+			// nothing arrived for a few seconds. Decide at quiescence whether anything can still come:
+			// after two PING round trips on an idle serve loop every WINDOW_UPDATE of the client has been
+			// applied and nothing is in flight, so the server's send windows must equal the client's view.
+			idle++
 			for i := range cs.Streams {
 				if !opened[i] {
-					stuck = false
 					if open(i) != nil {
 						res.why = "open"
 					}
+					idle = 0
 				}
 			}
-			idle++
-			if os.Getenv("VH2_DEBUG") != "" {
+			if idle == 0 {
+				continue
+			}
+			if tc.quiesce() {
 				snap, alive := tc.vc.OnServe()
 				c.mu.Lock()
-				fmt.Fprintf(os.Stderr, "STUCK conn=%d win=%v recvd=%v ended=%v rstSent=%v rstAcked=%v setPend=%v srvRST=%v ids=%v\n  alive=%v snap=%+v\n", c.conn, c.win, c.recvd, c.ended, c.rstSent, c.rstAcked, c.setPend, c.srvRST, ids, alive, snap)
+				view := c.conn
+				anyReset := len(c.rstSent) > 0
 				c.mu.Unlock()
-				evs := tc.cli.Events()
-				for k := len(evs) - 6; k < len(evs); k++ {
-					if k >= 0 {
-						fmt.Fprintf(os.Stderr, "   ev %s\n", trunc(evs[k].String(), 120))
+				if alive && snap.StreamQueueFrames > 0 && int64(snap.ConnFlow) < view {
+					why := "other"
+					if anyReset {
+						why = "after-client-reset"
 					}
+					r.Violation("conn-send-window-leak:"+why,
+						fmt.Sprintf("quiescent server holds %d queued DATA frames but its connection send window is %d while the client has granted %d (its view, nothing in flight): %d octets were taken from the connection window without being sent; the remaining responses can never complete", snap.StreamQueueFrames, snap.ConnFlow, view, view-int64(snap.ConnFlow)), cs)
+					res.why = "stalled: connection send window leaked"
+					break
 				}
 			}
-			if stuck || idle > 2 {
+			if idle > 12 {
 				res.why = "no progress within safety timeout"
 				break
 			}
